@@ -165,6 +165,7 @@ struct Udp
 		else if (o.op == "recv") do_recv(a, int(uint64_t(o.b) % 3), o.c, int(uint64_t(o.d) % 3) + 1);
 		else if (o.op == "sndbuf") do_sndbuf(a, o.c);
 		else if (o.op == "df") do_df(a, int(uint64_t(o.b) % 4));
+		else if (o.op == "move") do_move(a);
 	}
 
 	// the don't-fragment option: a datagram over the path MTU (1475 everywhere in this engine) is then discarded by the
@@ -227,6 +228,18 @@ struct Udp
 		s.recv_pending = false;
 		ctx.tr.rec("close", {a}, {now_ns()});
 		ctx.hit("close");
+	}
+
+	// the socket, with nothing outstanding on it, is moved into a new object (the old one is destroyed): binding, options,
+	// send budget and whatever sits unread in its receive queue go with it
+	void do_move(int a)
+	{
+		USock& s = socks[a];
+		if (!s.s->is_open() || s.recv_pending) return;
+		std::unique_ptr<udp::socket> n(new udp::socket(std::move(*s.s)));
+		s.s = std::move(n);
+		ctx.tr.rec("move", {a}, {now_ns()});
+		ctx.hit("socket_moved");
 	}
 
 	void do_sndbuf(int a, int64_t code)
@@ -732,7 +745,8 @@ struct UdpEngine : Engine
 			else if (u < 0.83) { o.op = "close"; if (mode != 3 && rng.chance(0.5)) continue; }
 			else if (u < 0.93) { o.op = "bind"; o.b = int64_t(rng.below(5)); }
 			else if (u < 0.97) { o.op = "sndbuf"; o.c = int64_t(rng.below(50)); }
-			else { o.op = "df"; o.b = int64_t(rng.below(4)); }
+			else if (u < 0.985) { o.op = "df"; o.b = int64_t(rng.below(4)); }
+			else o.op = "move";
 			p.ops.push_back(o);
 		}
 		return p;
